@@ -11,7 +11,13 @@ for n in sorted(os.listdir("/verif/seeded")):
     cells = []
     for tier in ("quick", "thorough"):
         if tier in det:
-            for pid, r in det[tier]["results"].items():
+            res = det[tier]["results"]
+            if n.startswith("neutral"):
+                alarms = [pid for pid, r in res.items() if r["rc"] == 1]
+                other = [f"{pid} rc={r['rc']}" for pid, r in res.items() if r["rc"] not in (0, 1)]
+                cells.append(f"{tier}: {len(res)} checks run, " + ("all silent (as they must be)" if not alarms and not other else "FALSE ALARM: " + ", ".join(alarms + other)))
+                continue
+            for pid, r in res.items():
                 cells.append(f"{pid} {tier}: " + ("caught (%ss)" % r["wall_s"] if r["caught"] else "MISSED" if r["rc"] == 0 else f"rc={r['rc']}"))
     summ = (m.get("summary") or "").replace("|", "\\|").replace("\n", " ")
     need = (m.get("needs_to_manifest") or "").replace("|", "\\|").replace("\n", " ")
